@@ -19,7 +19,8 @@ void harness(void)
         if (f == CAT_FSM_TYPE_ATCMD || f == CAT_FSM_TYPE_UNSOLICITED) {
                 size_t p = (f == CAT_FSM_TYPE_ATCMD) ? h_obj.position : h_obj.unsolicited_fsm.position;
                 size_t c = (f == CAT_FSM_TYPE_ATCMD) ? CAP_AT(&h_obj) : CAP_UN(&h_obj);
-                if (g_k < p && p <= c)
+                g_pfx = nondet_size();
+                if (g_pfx <= p && p <= c && g_k < g_pfx)
                         g_oldtext = BUFF(&h_obj, fsm)[g_k];
         }
         print_nstring_to_buf(&h_obj, str, len, fsm);
